@@ -27,8 +27,6 @@ Section Facts.
   Local Notation "a - b" := (fsub K a b).
   Local Notation "- a" := (fopp K a).
   Local Notation "a / b" := (fdiv K a b).
-  Local Notation "0" := (f0 K).
-  Local Notation "1" := (f1 K).
 
   Lemma vec3_eq (a b c d e g : K) : a = d -> b = e -> c = g -> (a, b, c) = (d, e, g).
   Proof. intros; subst; reflexivity. Qed.
@@ -117,6 +115,6 @@ Section Facts.
   Proof. intro H. rewrite rigid_diff. apply mv_norm2; assumption. Qed.
 
   (** small constants *)
-  Lemma fofZ_m1 : fofZ K (-1) = - 1. Proof. reflexivity. Qed.
-  Lemma fofZ_1 : fofZ K 1 = 1. Proof. reflexivity. Qed.
+  Lemma fofZ_m1 : fofZ K (-1)%Z = fopp K (f1 K). Proof. reflexivity. Qed.
+  Lemma fofZ_1 : fofZ K 1%Z = f1 K. Proof. reflexivity. Qed.
 End Facts.
